@@ -6,3 +6,6 @@ import XProofs.Properties.C17
 #print axioms Properties.C17.C17_unfreeze
 #print axioms Properties.C17.C17_as_if_never_frozen
 #print axioms Properties.C17.C17_frozen_call
+#print axioms Properties.C17.C17_frozen_load_rejected_iff
+#print axioms Properties.C17.C17_frozen_call_explicit
+#print axioms Properties.C17.C17_frozen_copy_expr_from
